@@ -33,6 +33,9 @@ type Op struct {
 	Offset int64    `json:",omitempty"`
 	Data   string   `json:",omitempty"`
 	// FileSys behaviour injected during this operation:
+	// CtxDone: the operation is called with a context that is already cancelled (a request that
+	// was flushed or timed out before the session got to it); the mock ignores contexts
+	CtxDone bool   `json:",omitempty"`
 	Fault   string `json:",omitempty"` // name of the mock call to fail: attach walk open opendir create read write stat wstat clunk remove
 	Partial int    `json:",omitempty"` // walk: the file system finds only this many elements
 }
@@ -55,6 +58,9 @@ func (o Op) String() string {
 	}
 	if o.Fault != "" {
 		s += " fault=" + o.Fault
+	}
+	if o.CtxDone {
+		s += " ctx=cancelled"
 	}
 	if o.Partial > 0 {
 		s += fmt.Sprintf(" partial=%d", o.Partial)
@@ -138,6 +144,11 @@ type result struct {
 // call runs one session operation under a watchdog.
 func (e *Env) call(op Op) (res result, hung bool) {
 	ctx := context.Background()
+	if op.CtxDone {
+		c, cancel := context.WithCancel(ctx)
+		cancel()
+		ctx = c
+	}
 	done := make(chan result, 1)
 	go func() {
 		var r result
